@@ -216,8 +216,10 @@ class Series:
     def size(self):
         return len(self._values)
 
-    def to_numpy(self):
-        return npm.array(self._values)
+    def to_numpy(self, dtype=None, copy=False, na_value=None):
+        if dtype is None:
+            return NDArray(list(self._values), (len(self._values),), None)      # object array, as for pandas str/object columns
+        return npm.array(list(self._values), dtype=dtype)
 
     def tolist(self):
         return list(self._values)
